@@ -31,6 +31,8 @@ type pre struct {
 	within    bool
 	withinErr bool
 	nAuctions int
+	mk        []*hardtypes.MoneyMarket // the money-market store before the operation (nil = absent)
+	stat      []int                    // status() before the operation
 }
 
 func zeros() []*big.Int { return vecOf(nil) }
@@ -51,7 +53,14 @@ func (w *world) countAuctions(ctx sdk.Context) (n int) {
 }
 
 func (w *world) preMonitor(op Op) *pre {
-	p := &pre{target: targetOf(op), dep: zeros(), bor: zeros()}
+	p := &pre{target: targetOf(op), dep: zeros(), bor: zeros(), mk: make([]*hardtypes.MoneyMarket, nD)}
+	for d := 0; d < nMkt; d++ {
+		if m, ok := w.storeMarket(d); ok {
+			m := m
+			p.mk[d] = &m
+		}
+	}
+	p.stat = w.status()
 	if p.target < 0 {
 		return p
 	}
@@ -481,9 +490,33 @@ var allSplits = []string{
 	"accrue:interest-positive", "accrue:skipped-rounds-to-zero", "accrue:reserves-exceed-cash-plus-borrows", "accrue:cash-plus-borrows-equals-reserves", "accrue:dt-zero",
 	"msg:malformed-refused", "price:none", "borrow:takes-reserve-coins",
 	"params:market-changed", "params:keeper-share-only-changed", "params:market-removed", "params:market-readded-with-positions", "liq:after-keeper-share-change",
+	// parameter shapes of the initial configurations (wide.go)
+	"cfg:ltv-zero", "cfg:ltv-one", "cfg:reserve-zero", "cfg:reserve-one", "cfg:keeper-zero", "cfg:keeper-one", "cfg:keeper-differs-per-market",
+	"cfg:has-max-limit", "cfg:no-max-limit", "cfg:min-borrow-zero", "cfg:min-borrow-large", "cfg:cf-1", "cfg:cf-1e6", "cfg:cf-1e8", "cfg:cf-1e18",
+	"cfg:model-zero-slopes", "cfg:model-steep", "cfg:kink-zero", "cfg:kink-one", "cfg:shared-spot-market",
+	// positions outside their range and what is tried from them
+	"overlimit:by-price", "overlimit:by-interest", "overlimit:by-params-change",
+	"overlimit:withdraw-zero-ltv-only:refused", "overlimit:withdraw-positive-ltv:refused", "overlimit:withdraw-mixed:refused",
+	"overlimit:borrow:refused", "overlimit:repay:ok", "overlimit:deposit:ok", "liq:zero-ltv-collateral-seized",
+	"ltv0:withdraw-ok-while-borrowing", "ltv0:sole-collateral-borrow-refused", "ltv1:borrow-at-boundary:ok",
+	// exact synced amounts and one unit either side
+	"withdraw:synced+0:ok", "withdraw:synced+1:ok", "withdraw:synced-1:ok", "withdraw:synced-exact-after-interest:ok",
+	"repay:synced+0:ok", "repay:synced+1:ok", "repay:synced-1:ok", "repay:synced-exact-after-interest:ok", "repay:refused:dust-below-minimum",
+	// the global borrow limit and the minimum borrow value
+	"borrow:global-limit:at-boundary:ok", "borrow:global-limit:above:refused", "accrue:borrows-over-global-limit",
+	"borrow:min-borrow:at-boundary:ok", "borrow:min-borrow:below:refused",
+	// parameter shapes where they act
+	"accrue:reserve-factor-one", "accrue:reserve-factor-zero", "accrue:kink-zero", "accrue:kink-one", "accrue:steep-model", "accrue:zero-rate-model",
+	"liq:keeper-share-one", "liq:keeper-share-zero", "liq:keeper-share-differs-per-denom",
+	"borrow:ok:cf-1", "borrow:ok:cf-1e6", "borrow:ok:cf-1e8", "borrow:ok:cf-1e18", "price:shared-spot-market", "borrow:ok:position-shares-spot-market",
+	// which gate refused
+	"gate:withdraw:outside-ltv-range", "gate:withdraw:deposit-not-found", "gate:withdraw:denom-not-deposited",
+	"gate:borrow:insufficient-ltv", "gate:borrow:below-minimum-borrow", "gate:borrow:global-borrow-limit", "gate:borrow:exceeds-borrowable-cash",
+	"gate:borrow:no-deposits", "gate:repay:borrow-not-found", "gate:repay:denom-not-borrowed", "gate:repay:below-minimum-borrow",
+	"gate:liquidate:not-liquidatable", "gate:liquidate:borrow-not-found", "gate:liquidate:deposit-not-found",
 }
 
-func (w *world) countSplits(op Op, cls Class, p *pre, before, after *snap, splits map[string]bool, cnt *Counters) {
+func (w *world) countSplits(op Op, cls Class, err error, p *pre, before, after *snap, splits map[string]bool, cnt *Counters) {
 	mark := func(k string) {
 		splits[k] = true
 		if cnt != nil {
@@ -492,6 +525,7 @@ func (w *world) countSplits(op Op, cls Class, p *pre, before, after *snap, split
 	}
 	ok := cls == ClassOk
 	tag := op.X2
+	w.countWide(op, cls, err, p, before, after, mark)
 	coins := vecOf(nil)
 	if op.Kind == "deposit" || op.Kind == "withdraw" || op.Kind == "borrow" || op.Kind == "repay" {
 		func() {
